@@ -12,3 +12,17 @@ open Pcore.Json
 #print axioms C11_pb_events
 #print axioms C11_pb_arms_ok
 #print axioms C11_impl_pb
+#print axioms pbArmsOK_mem
+#print axioms pb_value
+#print axioms pb_values
+#print axioms pb_entries
+#print axioms pb_stream
+#print axioms pb_streams
+#print axioms pb_streames
+#print axioms isStrKey_ofSer
+#print axioms wf_ofSer
+#print axioms wfs_ofSers
+#print axioms wfkv_ofSers
+#print axioms C11_wf_of_serializer_stream
+#print axioms C11_serializer_output_valid
+#print axioms C11_read_write_full_fails
